@@ -110,7 +110,14 @@ pub fn check(cx: &Cx, rep: &mut Report) {
             rep.count(&format!("hk_pair.{:?}->{:?}", m1.hk, m2.hk), 1);
             let e2s = ix.invs[*e2].i;
             let unique = ix.task_of(m1.tag).is_some();
-            match ix.inv_of.get(&m1.msg).and_then(|v| v.first()) {
+            // an invocation that was dropped half-way although nothing entitles the library to abandon it (no handler
+            // timeout applies, no fault was injected, the client did not cancel a call) is not "handled"
+            let no_abandon_cause = !ix.has_fault()
+                && cx.prog.cancel.is_none()
+                && cx.prog.actors.iter().chain(cx.prog.defaults.iter()).find(|d| d.tag == m1.tag).map(|d| d.timeout.is_none() || d.entry.stream()).unwrap_or(false)
+                && !cx.tr.inconclusive();
+            let h1 = ix.inv_of.get(&m1.msg).and_then(|v| v.first()).filter(|j| !(no_abandon_cause && ix.invs[**j].abandoned.map(|a| ix.phase("end").map(|e| a.0 < e).unwrap_or(true)).unwrap_or(false)));
+            match h1 {
                 None if !unique => {}
                 Some(e1) if !unique && ix.invs[*e1].actor != ix.invs[*e2].actor => {}
                 None => {
